@@ -1,4 +1,5 @@
 import CssVerif.Model.OutRules
+import CssVerif.Lemmas.OutSep
 /-!
 # The three serializer repairs of wave 3 as statements about the model
 
@@ -112,5 +113,90 @@ theorem append_op_equals (p : Prefs) (il : Nat) (o : O) (c : Nat) (hc : isAttrOp
   simp only [e1, h2]
   simp [t_CHAR, t_COMMENT, t_S, t_STRING, t_URI, t_HASH, hm, appendPost, isInfix, c_calcOps, c_comb, c_noSpace,
     t_styletext, t_FUNCTION]
+
+/-! ### ec62b69, for every record -/
+
+theorem plain_ne_slash {w : Cps} (hw : Plain w = true) : w ≠ [47] := by
+  intro e
+  subst e
+  exact absurd hw (by decide)
+
+/-- a word appended with `space=False` (generic type): nothing is written behind it -/
+theorem append_word_nospace (p : Prefs) (il : Nat) (o : O) (w ty : Cps) (hw : Plain w = true)
+    (ht : GenericTy ty = true) (ho : o.head? ≠ some [47]) :
+    append p il o (.str w) ty { space := false } = w :: o := by
+  have hwf := wouldFuse_of_head_ne ho hw
+  simp only [Plain, Bool.and_eq_true, Bool.not_eq_true'] at hw
+  obtain ⟨⟨⟨h1, h2⟩, h3⟩, h4'⟩ := hw
+  have h4 : (endsSp w && !endsEscSp w) = false := by
+    cases h5 : endsSp w <;> cases h6 : endsEscSp w <;> simp [h5, h6] at h4' ⊢
+  simp only [GenericTy, Bool.and_eq_true, bne_iff_ne, ne_eq] at ht
+  obtain ⟨⟨⟨⟨⟨⟨t1, t2⟩, t3⟩, t4⟩, t5⟩, t6⟩, t7⟩ := ht
+  have b1 : (ty == t_COMMENT) = false := by simpa using t1
+  have b2 : (ty == t_S) = false := by simpa using t2
+  have b3 : (ty == t_STRING) = false := by simpa using t3
+  have b4 : (ty == t_URI) = false := by simpa using t4
+  have b5 : (ty == t_HASH) = false := by simpa using t5
+  have b7 : (ty == t_styletext) = false := by simpa using t7
+  have hcomb := isInfix_comb_of_punct h2
+  have e41 := ne_single_of_not_infix h2 41 (by decide)
+  have e44 := ne_single_of_not_infix h2 44 (by decide)
+  have e58 := ne_single_of_not_infix h2 58 (by decide)
+  have e123 := ne_single_of_not_infix h2 123 (by decide)
+  have e59 := ne_single_of_not_infix h2 59 (by decide)
+  have e125 := ne_single_of_not_infix h2 125 (by decide)
+  have htr : (AVal.str w).truthy = true := by simp [AVal.truthy, h1]
+  unfold append
+  simp only [htr, Bool.true_or, Bool.not_true, Bool.false_eq_true, if_false]
+  unfold appendPre
+  simp only [b1, b2, b3, b4, b5, Bool.false_eq_true, if_false, AVal.text, h2, Bool.false_and]
+  unfold appendMid appendPost
+  simp only [e125, Bool.false_and, Bool.or_false, Bool.false_eq_true, if_false, h4, hcomb, e41, e44, e58, e123,
+    e59, b7, Bool.and_false, hwf]
+
+/-- a comment object appended with `space=False` while comments are kept -/
+theorem append_comment_nospace (p : Prefs) (hk : p.keepComments = true) (il : Nat) (o : O) (c : Cps)
+    (hc : Plain c = true) (ho : o.head? ≠ some [47]) :
+    append p il o (.obj c) t_COMMENT { space := false } = c :: o := by
+  have hwf := wouldFuse_of_head_ne ho hc
+  simp only [Plain, Bool.and_eq_true, Bool.not_eq_true'] at hc
+  obtain ⟨⟨⟨h1, h2⟩, h3⟩, h4'⟩ := hc
+  have h4 : (endsSp c && !endsEscSp c) = false := by
+    cases h5 : endsSp c <;> cases h6 : endsEscSp c <;> simp [h5, h6] at h4' ⊢
+  have hcomb := isInfix_comb_of_punct h2
+  have e41 := ne_single_of_not_infix h2 41 (by decide)
+  have e44 := ne_single_of_not_infix h2 44 (by decide)
+  have e58 := ne_single_of_not_infix h2 58 (by decide)
+  have e123 := ne_single_of_not_infix h2 123 (by decide)
+  have e59 := ne_single_of_not_infix h2 59 (by decide)
+  have e125 := ne_single_of_not_infix h2 125 (by decide)
+  have b7 : (t_COMMENT == t_styletext) = false := by decide
+  unfold append
+  simp only [AVal.truthy, Bool.true_or, Bool.not_true, Bool.false_eq_true, if_false]
+  unfold appendPre
+  simp only [beq_self_eq_true, if_true, hk, AVal.text]
+  unfold appendMid appendPost
+  simp only [e125, Bool.false_and, Bool.or_false, Bool.false_eq_true, if_false, h4, hcomb, e41, e44, e58, e123,
+    e59, b7, Bool.and_false, hwf]
+
+/-- **ec62b69 for every record**: page name, comment, pseudo-page are written without anything between them -/
+theorem pageSel_name_comment_pseudo (p : Prefs) (hk : p.keepComments = true) (hs : allWs p.spacer = true) (il : Nat)
+    (a c ps ty3 : Cps) (ha : Plain a = true) (hc : Plain c = true) (hps : Plain ps = true)
+    (ht3 : GenericTy ty3 = true) (hni : (ty3 == t_IDENT) = false) :
+    value (runCalls p il (pageSelCalls [(t_IDENT, .str a), (t_COMMENT, .obj c), (ty3, .str ps)])) = a ++ c ++ ps := by
+  have e1 : (t_COMMENT == t_IDENT) = false := by decide
+  have e3 : (ty3 == t_COMMENT) = false := by
+    simp only [GenericTy, Bool.and_eq_true, bne_iff_ne, ne_eq] at ht3
+    simpa using ht3.1.1.1.1.1.1
+  simp only [pageSelCalls, pageSelCallsFrom, beq_self_eq_true, if_true, e1, Bool.false_eq_true, if_false,
+    Bool.true_and, hni, e3, EVal.aval, runCalls, List.foldl_cons, List.foldl_nil]
+  rw [append_word_nospace p il [] a t_IDENT ha (by decide) (by simp)]
+  rw [append_comment_nospace p hk il [a] c hc (by simpa using plain_ne_slash ha)]
+  rw [append_word p il (c :: [a]) ps ty3 hps ht3 (by simpa using plain_ne_slash hc)]
+  unfold gapPieces value
+  by_cases he : p.spacer.isEmpty = true
+  · have e : p.spacer = [] := by simpa using he
+    simp [e, removeLastIfS, allWs, isWs]
+  · simp [he, removeLastIfS, hs]
 
 end CssVerif.Out
